@@ -108,7 +108,7 @@ def network_simplex(
     rev_thread[root] = n - 1
 
     # pi[i] = node potential (dual variable); reduced cost = cost - pi[src] + pi[tgt]
-    pi = [0.0] * total_nodes
+    pi = [0] * total_nodes
     for i in range(n):
         arc = pred[i]
         if source[arc] == i:
